@@ -13,7 +13,8 @@ from props import common_match, c05
 warnings.simplefilter('ignore', FutureWarning)
 PID = 'C03'
 SOURCES = ['SoupVerif/Properties/C03.lean', 'SoupVerif/Properties/C03Wrappers.lean', 'SoupVerif/Lemmas/TreeWalk.lean',
-           'SoupVerif/Model/Api.lean', 'SoupVerif/Generated/Wrappers.lean']
+           'SoupVerif/Model/Api.lean', 'SoupVerif/Generated/Wrappers.lean',
+           'SoupVerif/Properties/C03Gen.lean', 'SoupVerif/Model/PyApiLoop.lean', 'SoupVerif/Generated/PyApi.lean']
 RULE = ('documents (generic and form/iframe documents, four kinds, detached fragments) x selectors (incl. :scope, &, :root, '
         'custom aliases) x call targets (document object, root, inner elements, detached element) x limit in {-1,0,1,2,big} x every '
         'subset of {namespaces, flags, custom} given or omitted. Checked on PY itself: select = matching element descendants '
